@@ -240,7 +240,31 @@ func loadKnown() []finding {
 }
 
 // Finish writes the evidence file, prints the result lines and exits.
+// AtExit registers f to run when the check finishes (Finish exits the process,
+// so deferred calls in the check body never run).
+func AtExit(f func()) {
+	exitMu.Lock()
+	exitFns = append(exitFns, f)
+	exitMu.Unlock()
+}
+
+var (
+	exitMu  sync.Mutex
+	exitFns []func()
+)
+
+func runAtExit() {
+	exitMu.Lock()
+	fs := exitFns
+	exitFns = nil
+	exitMu.Unlock()
+	for i := len(fs) - 1; i >= 0; i-- {
+		fs[i]()
+	}
+}
+
 func (r *Run) Finish() {
+	runAtExit()
 	known := loadKnown()
 	isKnown := func(key string) *finding {
 		for i := range known {
